@@ -216,6 +216,28 @@ type Mixed struct {
 	Limits   map[string]int    `hcl:"limits,optional"`
 }
 
+// ManyLabels: block types with four and five labels (in JSON: one nested object per label level).
+type L4 struct {
+	A string `hcl:"a,label"`
+	B string `hcl:"b,label"`
+	C string `hcl:"c,label"`
+	D string `hcl:"d,label"`
+	V int    `hcl:"v"`
+}
+type L5 struct {
+	A string `hcl:"a,label"`
+	B string `hcl:"b,label"`
+	C string `hcl:"c,label"`
+	D string `hcl:"d,label"`
+	E string `hcl:"e,label"`
+	N string `hcl:"n,optional"`
+}
+type ManyLabels struct {
+	Rules []L4   `hcl:"rule,block"`
+	Paths []*L5  `hcl:"path,block"`
+	Note  string `hcl:"note,optional"`
+}
+
 // Empty has no fields at all.
 type Empty struct{}
 
@@ -232,7 +254,7 @@ type typeInfo struct {
 }
 
 // familyWeights gives the share of each family type in the round-trip stream.
-var familyWeights = map[string]int{"Empty": 1, "OnlyBlocks": 3, "RemainAttrs": 3}
+var familyWeights = map[string]int{"Empty": 1, "OnlyBlocks": 3, "RemainAttrs": 3, "ManyLabels": 6}
 
 var family = []typeInfo{
 	{"Scalars", reflect.TypeOf(Scalars{})},
@@ -247,6 +269,7 @@ var family = []typeInfo{
 	{"Meta", reflect.TypeOf(Meta{})},
 	{"RemainAttrs", reflect.TypeOf(RemainAttrs{})},
 	{"Mixed", reflect.TypeOf(Mixed{})},
+	{"ManyLabels", reflect.TypeOf(ManyLabels{})},
 	{"Empty", reflect.TypeOf(Empty{})},
 	{"OnlyBlocks", reflect.TypeOf(OnlyBlocks{})},
 }
